@@ -14,6 +14,19 @@ claimed = {
              "invokes a route function for a request the reference admission predicate refuses, that at most one function runs, and that the selected route seen by the "
              "handler is the one that ran. Bounded symbolic model checking is the right level: the property quantifies over all request strings, which only a solver covers.",
              design="5 (C01), 5.0"),
+ "C02": dict(text="For each enumerated table and router the solver decides, for every request within the byte bounds, that Dispatch never panics, that at most one function runs, and that the "
+             "observed outcome equals the reference outcome (best WebService, then path/If, method, Content-Type, Accept stages; 404/405 with exact Allow set/415/406) wherever the "
+             "three-valued reference is definite; the dispatch is repeated with trace logging on and must agree. Totality over all byte strings needs a solver, not samples.",
+             design="5 (C02), 5.0"),
+ "C03": dict(text="Twin containers holding the same table registered in two orders (orders enumerated, request symbolic) must give every request the same outcome; additionally no eligible "
+             "route with a literal where the winner has a variable may exist. Decided per table by the solver over all requests in the bound.", design="5 (C03)"),
+ "C04": dict(text="For the invoked route and every matching canonical request path in the bound, each bound value is proved equal to the oracle's view of the URL segment (minus affixes and "
+             "custom verb), the tail wildcard to the joined remainder, and the key set to the declared variables; thorough adds the substitute-back round trip at a smaller capacity.", design="5 (C04)"),
+ "C14": dict(text="Product harness: the same container serves p and p+\"/\" for a symbolic p; the solver proves equal status, route, parameter values and Allow header for every p in the bound.", design="5 (C14)"),
+ "C17": dict(text="Per symbolic URL: one dispatch per method of the table (plus a foreign one), one OPTIONS dispatch through OPTIONSFilter and a filter-less twin; the solver proves the Allow sets "
+             "(405 and OPTIONS) equal the set of methods not answered 404/405, outside the recorded finding classes.", design="5 (C17)"),
+ "C18": dict(text="Twin containers (CurlyRouter, RouterJSR311) on tables of the common fragment get the same symbolic request; the solver proves equal route, parameter values, status and Allow "
+             "set outside the recorded input classes (empty segment / no leading slash, newline byte).", design="5 (C18)"),
 }
 not_applicable = {
 }
